@@ -37,12 +37,21 @@ BUDGET = 400000
 
 
 class Leaf:
-    __slots__ = ("value", "vpats", "diverge")
+    __slots__ = ("value", "vpats", "diverge", "effects")
 
-    def __init__(self, value: Any, vpats: tuple = (), diverge: Optional[str] = None):
+    def __init__(self, value: Any, vpats: tuple = (), diverge: Optional[str] = None, effects: tuple = ()):
         self.value = value
         self.vpats = vpats          # variant patterns matched on the way (their bindings occur free in value)
         self.diverge = diverge      # reason when the path does not return (panic / recursion / no arm)
+        self.effects = effects      # calls into user code evaluated on the way whose value was bound or dropped
+
+    def unused_effects(self) -> list:
+        """Evaluated user calls that the returned value does not contain (a hoisted `let e = f(s);` on a path that does
+        not return e, or a dropped `f(s);`): substitution of `let`s is only faithful when this is empty."""
+        if not self.effects:
+            return []
+        txt = H.render(self.value) if self.value is not None else ""
+        return [e for e in self.effects if H.render(e) not in txt]
 
 
 class Br:
@@ -55,22 +64,32 @@ class Br:
 
 
 class Frame:
-    __slots__ = ("env", "fid", "retk", "stack", "vpats")
+    __slots__ = ("env", "fid", "retk", "stack", "vpats", "effects")
 
-    def __init__(self, env: dict, fid: int, retk, stack: tuple, vpats: tuple):
+    def __init__(self, env: dict, fid: int, retk, stack: tuple, vpats: tuple, effects: tuple = ()):
         self.env = env
         self.fid = fid
         self.retk = retk
         self.stack = stack
         self.vpats = vpats
+        self.effects = effects
 
     def bind(self, lid: int, v: Any) -> "Frame":
         e = dict(self.env)
         e[lid] = v
-        return Frame(e, self.fid, self.retk, self.stack, self.vpats)
+        return Frame(e, self.fid, self.retk, self.stack, self.vpats, self.effects)
 
     def with_vpat(self, vp) -> "Frame":
-        return Frame(self.env, self.fid, self.retk, self.stack, self.vpats + (vp,))
+        return Frame(self.env, self.fid, self.retk, self.stack, self.vpats + (vp,), self.effects)
+
+    def with_effect(self, e: Any) -> "Frame":
+        return Frame(self.env, self.fid, self.retk, self.stack, self.vpats, self.effects + (e,))
+
+    def carry(self, inner: "Frame") -> "Frame":
+        """self's bindings with the path facts (matched patterns, effects) of inner."""
+        if inner.vpats == self.vpats and inner.effects == self.effects:
+            return self
+        return Frame(self.env, self.fid, self.retk, self.stack, inner.vpats, inner.effects)
 
 
 CF_KINDS = {"if", "match", "ret", "let", "semi", "expr_stmt", "loop", "break", "continue", "assign", "assign_op", "let_expr"}
@@ -132,7 +151,7 @@ class Builder:
         if not isinstance(e, dict):
             return False
         k = e.get("k")
-        if k in CF_KINDS:
+        if k in CF_KINDS or k == "try":
             return True
         if k == "closure":
             return False
@@ -228,7 +247,7 @@ class Builder:
             return kont(UNIT, fr)
         if not self.has_cf(e):
             if H.diverges(e):
-                return Leaf(self.subst(e, fr), fr.vpats, "diverges: " + H.brief(e, 60))
+                return Leaf(self.subst(e, fr), fr.vpats, "diverges: " + H.brief(e, 60), fr.effects)
             return kont(self.subst(e, fr), fr)
         k = e.get("k")
         if k == "block":
@@ -244,6 +263,17 @@ class Builder:
             if e.get("src", "Normal") not in ("Normal", "Postfix"):
                 raise Unrecognised("desugared match (%s) in generated body" % e.get("src"), e)
             return self.build(e["scrut"], fr, lambda v, f1: self.match_arms(e["arms"], v, f1, kont))
+        if k == "try":
+            # `place?` on a Result stored in a place: Ok -> payload, Err -> return Err(payload)
+            def q(v, f1):
+                pk = place_key(v)
+                if pk is None:
+                    raise Unrecognised("`?` on something that is not a field of a parameter: " + H.brief(v, 80), e)
+                ok_v = {"k": "proj", "place": list(pk), "ctor": "Ok", "e": peel(v)}
+                err_v = {"k": "call", "f": {"k": "path", "def": ERR, "dk": "Ctor(Variant, Fn)", "written": "Err", "variant": "Err", "adt": "core::result::Result"},
+                         "args": [{"k": "proj", "place": list(pk), "ctor": "Err", "e": peel(v)}]}
+                return self.br(("is", pk, "Ok"), kont(ok_v, f1), f1.retk(err_v, f1), e)
+            return self.build(e["e"], fr, q)
         if k == "bin" and e.get("op") in ("&&", "||"):
             return self.build_cond(e, fr, lambda f1: kont({"k": "lit", "ty": "bool", "v": True}, f1), lambda f1: kont({"k": "lit", "ty": "bool", "v": False}, f1))
         if k in ("semi", "expr_stmt", "let", "let_expr", "loop", "break", "continue", "assign", "assign_op"):
@@ -308,7 +338,7 @@ class Builder:
 
     def inline(self, tgt: str, node: dict, fr: Frame, kont) -> Any:
         if tgt in fr.stack:
-            return Leaf(node, fr.vpats, "recursion: %s calls itself" % tgt.split("::")[-1])
+            return Leaf(node, fr.vpats, "recursion: %s calls itself" % tgt.split("::")[-1], fr.effects)
         if len(fr.stack) > 6:
             raise Unrecognised("helper calls nested too deeply", node)
         fn = self.fns[tgt]
@@ -325,8 +355,8 @@ class Builder:
         outer = fr
 
         def back(v, inner):
-            return kont(v, outer if inner.vpats == outer.vpats else Frame(outer.env, outer.fid, outer.retk, outer.stack, inner.vpats))
-        nf = Frame(env, fid, back, fr.stack + (tgt,), fr.vpats)
+            return kont(v, outer.carry(inner))
+        nf = Frame(env, fid, back, fr.stack + (tgt,), fr.vpats, fr.effects)
         # nested items of the helper
         self._scan_items(fn["body"]["tree"])
         return self.build(fn["body"]["tree"], nf, back)
@@ -342,7 +372,12 @@ class Builder:
         s = stmts[i]
         k = s.get("k")
         if k in ("semi", "expr_stmt"):
-            return self.build(s["e"], fr, lambda _v, f1: self.build_stmts(stmts, i + 1, tail, self._scope(fr, f1), kont))
+            def dropped(v, f1):
+                f2 = self._scope(fr, f1)
+                if effectful(v):
+                    f2 = f2.with_effect(v)
+                return self.build_stmts(stmts, i + 1, tail, f2, kont)
+            return self.build(s["e"], fr, dropped)
         if k == "let":
             if s.get("else") is not None:
                 init = s.get("init")
@@ -351,16 +386,14 @@ class Builder:
                                                                            lambda f2: self.build(s["else"], f2, kont)))
             if s.get("init") is None:
                 raise Unrecognised("`let` without initialiser in generated body", s)
-            return self.build(s["init"], fr, lambda v, f1: self.match_pat(s["pat"], v, f1,
+            return self.build(s["init"], fr, lambda v, f1: self.match_pat(s["pat"], v, f1.with_effect(v) if effectful(v) else f1,
                                                                            lambda f2: self.build_stmts(stmts, i + 1, tail, f2, kont),
                                                                            lambda f2: _refutable(s)))
         raise Unrecognised("statement `%s` in generated body" % k, s)
 
     def _scope(self, outer: Frame, inner: Frame) -> Frame:
         # bindings made inside an expression statement do not escape it; variant patterns matched on the way do
-        if inner.vpats == outer.vpats:
-            return outer
-        return Frame(outer.env, outer.fid, outer.retk, outer.stack, inner.vpats)
+        return outer.carry(inner)
 
     # ---------------------------------------------------------------- conditions
     def build_cond(self, c: Any, fr: Frame, tk: Callable[[Frame], Any], fk: Callable[[Frame], Any]) -> Any:
@@ -440,7 +473,7 @@ class Builder:
     # ---------------------------------------------------------------- patterns
     def match_arms(self, arms: list, v: Any, fr: Frame, kont) -> Any:
         # built from the last arm upwards: `nxt` is the tree for "no earlier arm matched"
-        nxt: Any = Leaf(None, fr.vpats, "no arm matches")
+        nxt: Any = Leaf(None, fr.vpats, "no arm matches", fr.effects)
         for arm in reversed(arms):
             nxt = self._arm(arm, v, fr, kont, nxt)
         return nxt
@@ -492,6 +525,12 @@ class Builder:
         if k == "prange":
             raise Unrecognised("range pattern in generated code", p)
         vp = H.variant_pat(p)
+        if vp is None and k == "pstruct" and isinstance(p.get("path"), dict) and not p["path"].get("variant"):
+            # struct pattern `S { f: <pat>, .. }` against a place: field-wise
+            if place_key(pv) is None:
+                raise Unrecognised("struct pattern against a value that is not a place: " + H.brief(v, 80), p)
+            pairs = [(f_[1], {"k": "field", "name": f_[0], "e": pv}) for f_ in p["fields"]]
+            return self._match_all(pairs, fr, tk, fk)
         if vp is not None:
             # Option / Result over a known constructor value: decided statically
             pdef = p["path"].get("def") if isinstance(p.get("path"), dict) else None
@@ -508,6 +547,25 @@ class Builder:
             if role == "self":
                 f1 = fr.with_vpat(vp)
                 return self.br(("var", vp.variant), tk(f1), fk(fr), p)
+            pk = place_key(pv)
+            if pk is not None and pdef is not None and _ctor_family(pdef) is not None:
+                # Option / Result stored in a place (a field of a parameter): the atom is "place holds Some" / "place holds Ok"
+                fam = _ctor_family(pdef)
+                pos_name = "Some" if fam == "option" else "Ok"
+                atom = ("is", pk, pos_name)
+                name = _ctor_name(pdef)
+                subs = vp.subs if vp.shape == "tuple" else []
+                proj = {"k": "proj", "place": list(pk), "ctor": name, "e": pv}
+
+                def matched(f1):
+                    if not subs:
+                        return tk(f1)
+                    if len(subs) != 1:
+                        raise Unrecognised("constructor pattern arity", p)
+                    return self.match_pat(subs[0], proj, f1, tk, fk)
+                if name == pos_name:
+                    return self.br(atom, matched(fr), fk(fr), p)
+                return self.br(atom, fk(fr), matched(fr), p)
             if role == "int" and k == "ppath":
                 n = self.int_const(p["path"])
                 if n is not None:
@@ -530,8 +588,61 @@ class Builder:
 
     # ---------------------------------------------------------------- entry
     def tree(self) -> Any:
-        fr = Frame({}, 0, lambda v, f: Leaf(v, f.vpats), (), ())
-        return self.build(self.fn["body"]["tree"], fr, lambda v, f: Leaf(v, f.vpats))
+        fr = Frame({}, 0, lambda v, f: Leaf(v, f.vpats, None, f.effects), (), ())
+        return self.build(self.fn["body"]["tree"], fr, lambda v, f: Leaf(v, f.vpats, None, f.effects))
+
+
+PURE_CRATES = ("core", "alloc", "std", "phf", "phf_shared", "strum")
+
+
+def effectful(v: Any) -> bool:
+    """Does evaluating v call into user code (a path call whose callee lives outside core/alloc/std/phf/strum)?
+    Trait methods of core (Default::default, Into::into, Clone::clone ..) are taken as pure."""
+    for n in H.walk(v):
+        if n.get("k") == "closure":
+            continue
+        if n.get("k") == "call":
+            f = H.strip(n.get("f"))
+            if isinstance(f, dict) and f.get("k") == "path" and f.get("crate") and f.get("crate") not in PURE_CRATES and not str(f.get("dk", "")).startswith("Ctor"):
+                return True
+        elif n.get("k") == "mcall":
+            if n.get("crate") and n.get("crate") not in PURE_CRATES:
+                return True
+    return False
+
+
+def place_key(v: Any) -> Optional[tuple]:
+    """A parameter or a chain of field projections of one: ('p', i) / ('f', <place>, name)."""
+    v = peel(v)
+    if not isinstance(v, dict):
+        return None
+    if v.get("k") == "local" and "frame" not in v and v.get("param") is not None:
+        return ("p", v["param"])
+    if v.get("k") == "field":
+        inner = place_key(v.get("e"))
+        if inner is not None:
+            return ("f", inner, v.get("name"))
+    return None
+
+
+def paths(tree: Any, limit: int = 20000):
+    """Every root-to-leaf path as ([(atom, polarity)], leaf)."""
+    out = []
+    stack = [(tree, ())]
+    while stack:
+        n, lits = stack.pop()
+        if isinstance(n, Br):
+            known = [pol for a, pol in lits if a == n.atom]
+            if known:
+                stack.append((n.t if known[0] else n.f, lits))      # the atom is already decided on this path
+                continue
+            stack.append((n.f, lits + ((n.atom, False),)))
+            stack.append((n.t, lits + ((n.atom, True),)))
+        else:
+            out.append((list(lits), n))
+            if len(out) > limit:
+                raise Unrecognised("too many paths in the decision tree")
+    return out
 
 
 def _refutable(s):
@@ -708,6 +819,8 @@ def holds(atom: tuple, rep: dict) -> bool:
             return _cmp(len(rep["s"].encode("utf-8")), atom[1], atom[2])
         if k == "int":
             return _cmp(rep["int"], atom[1], atom[2])
+        if k == "is":
+            return rep["is"][atom[1]] == atom[2]
     except KeyError:
         raise Unrecognised("the function branches on %s, which is not an input of the table being extracted" % (atom,))
     raise Unrecognised("unknown atom %r" % (atom,))
